@@ -259,6 +259,14 @@ func (x *c08Ctx) exec(in *c08In) bool {
 				items[i] = c08TmOpCoq(o)
 			}
 			tmproof = "(Some " + coqList(items) + ")"
+			// a re-encoded proof that still chains to the recorded root (only its shape violates the spec)
+			if strings.HasPrefix(in.Family, "spec-") && len(ops) == 2 && good && ops[0].CalcOK && ops[1].CalcOK &&
+				bytes.Equal(ops[1].Calc, c.Root) && bytes.Equal(ops[1].Val, ops[0].Calc) {
+				rep.Count("root-preserved:" + in.Family)
+				if len(ops[0].OKSpecs) == 2 || len(ops[1].OKSpecs) == 2 {
+					rep.Count("root-preserved-and-conforming:" + in.Family)
+				}
+			}
 		}
 	} else {
 		if dec, decd := x.eth.decode(in); decd {
